@@ -468,3 +468,77 @@ func H_c02_token() {
 	}
 	verif_witness()
 }
+
+// H_c02_proc: process commands reach the agent as issued (Command.c l.265 CommandProc: I
+// sub-command; grep: W name; create: I state, W process, W arguments, I piped, I verbose;
+// memory: I pid, I protection with the Windows PAGE_* values), for a process name / path of
+// two arbitrary printable characters, arbitrary flags, a 1..3 digit pid and every protection.
+func H_c02_proc() {
+	ts, A, _, _ := verifStateS()
+	sub := nondet_choice("proc-sub", 3)
+	info := map[string]any{"TaskID": "0000000d"}
+	var want []byte
+	nb := nondet_bytes("name", 2)
+	for _, c := range nb {
+		verif_assume(c >= 0x21)
+		verif_assume(c < 0x7f)
+		verif_assume(c != ';')
+	}
+	name := string(nb)
+	switch sub {
+	case 0:
+		info["ProcCommand"], info["Args"] = "3", name
+		want = verifFsWide(verifFsInt(nil, 3), name)
+	case 1:
+		state := nondet_choice("state", 3)
+		verbose, piped := nondet_bool("verbose"), nondet_bool("piped")
+		tf := func(b bool) string {
+			if b {
+				return []string{"true", "True", "TRUE"}[nondet_choice("true-spelling", 3)]
+			}
+			return "false"
+		}
+		// State;Verbose;Piped;Process;base64(Arguments); the arguments are the two bytes "a1"
+		info["ProcCommand"] = "4"
+		info["Args"] = []string{"0", "1", "4"}[state] + ";" + tf(verbose) + ";" + tf(piped) + ";" + name + ";YTE="
+		want = verifFsInt(verifFsInt(nil, 4), []uint32{0, 1, 4}[state])
+		want = verifFsWide(verifFsWide(want, name), "a1")
+		pv, vv := uint32(0), uint32(0)
+		if piped {
+			pv = 1
+		}
+		if verbose {
+			vv = 1
+		}
+		want = verifFsInt(verifFsInt(want, pv), vv)
+	case 2:
+		pid, pidv := verifDigits("pid", 1+nondet_choice("pid-len", 3))
+		k := nondet_choice("protection", 9)
+		names := []string{"PAGE_NOACCESS", "PAGE_READONLY", "PAGE_READWRITE", "PAGE_WRITECOPY", "PAGE_EXECUTE", "PAGE_EXECUTE_READ", "PAGE_EXECUTE_READWRITE", "PAGE_EXECUTE_WRITECOPY", "PAGE_GUARD"}
+		codes := []uint32{0x01, 0x02, 0x04, 0x08, 0x10, 0x20, 0x40, 0x80, 0x100} // winnt.h
+		info["ProcCommand"], info["Args"] = "6", pid+" "+names[k]
+		want = verifFsInt(verifFsInt(verifFsInt(nil, 6), uint32(pidv)), codes[k])
+	}
+	msg := map[string]string{}
+	job, err := A.TaskPrepare(COMMAND_PROC, info, &msg, "", ts)
+	verif_assert(err == nil, "a well-formed process command is accepted")
+	if err != nil || job == nil {
+		return
+	}
+	A.AddJobToQueue(*job)
+	reply := BuildPayloadMessage(A.GetQueuedJobs(), A.Encryption.AESKey, A.Encryption.AESIv)
+	task := verifDecodeOneTask(reply, A.Encryption.AESKey, A.Encryption.AESIv)
+	verif_assert(task.OK, "the check-in reply holds exactly one well-formed task")
+	if !task.OK {
+		return
+	}
+	verif_assert(task.Cmd == COMMAND_PROC, "the agent sees the operator's command")
+	verif_assert(task.Rid == 0xd, "the request id is the operator's task id")
+	verif_assert(len(task.Body) == len(want), "the task body holds exactly the fields the Demon reads")
+	if len(task.Body) == len(want) {
+		for i := range want {
+			verif_assert(task.Body[i] == want[i], "every field read by the Demon's CommandProc equals the operator's parameter")
+		}
+	}
+	verif_witness()
+}
